@@ -62,7 +62,8 @@ def run(tier, seed):
                     req.content = content
                 except ValueError:
                     continue
-                fault = rng.choice([None, None, None, ("write", rng.choice([0, 1, max(0, size - 1)])), ("replace",)])
+                fault = rng.choice([None, None, None, ("write", rng.choice([0, 1, max(0, size - 1)])), ("replace",),
+                                    ("rlimit", rng.choice([0, 1, max(0, size - 1)]))])
                 before = fstree.snapshot(real_tmp)
                 # install the fault at the level of the OS-facing calls (whatever code path the handler uses)
                 import io
@@ -78,6 +79,13 @@ def run(tier, seed):
                 elif fault and fault[0] == "replace":
                     def bad_replace(a, b, *x, **y): raise OSError(errno.EIO, "Input/output error")
                     os.replace = bad_replace; os.rename = bad_replace
+                elif fault and fault[0] == "rlimit":
+                    # a real OS-level fault: the file-size limit makes the kernel refuse everything beyond k bytes (EFBIG), which a
+                    # buffered writer only learns when it flushes - possibly as late as close()
+                    import resource, signal
+                    old_lim = resource.getrlimit(resource.RLIMIT_FSIZE)
+                    old_sig = signal.signal(signal.SIGXFSZ, signal.SIG_IGN)
+                    resource.setrlimit(resource.RLIMIT_FSIZE, (fault[1], old_lim[1]))
                 try:
                     try:
                         r = asyncio.run(h.handle_upload(req)); obs = ["resp", r.status]
@@ -85,6 +93,8 @@ def run(tier, seed):
                         obs = ["raise", "oserror" if isinstance(e, OSError) else type(e).__name__]
                 finally:
                     builtins.open = real_open; io.open = real_open; os.replace = real_replace; os.rename = real_rename
+                    if fault and fault[0] == "rlimit":
+                        resource.setrlimit(resource.RLIMIT_FSIZE, old_lim); signal.signal(signal.SIGXFSZ, old_sig)
                 after = fstree.snapshot(real_tmp)
                 # what the path denotes, by the operating system
                 try:
@@ -99,7 +109,8 @@ def run(tier, seed):
                 mreq = [req.path, req.size, req.mime_type, [req.token] if req.token is not None else [], content]
                 base = fstree.comps(real_tmp)
                 ancestors = [[base[:i], ["d"]] for i in range(1, len(base) + 1)]
-                mcases.append(("upload", enc([cfg, ancestors + before, mreq, [1] if fault else []])))
+                effective_fault = bool(fault) and not (fault[0] == "rlimit" and fault[1] >= len(content))
+                mcases.append(("upload", enc([cfg, ancestors + before, mreq, [1] if effective_fault else []])))
                 status = obs[1] if obs[0] == "resp" else 40
                 meta.append((nodes, cfg, mreq, fault, obs, before, after, status, target, line))
                 res.evaluations += 1
